@@ -523,7 +523,7 @@ def _check(ctx, prop, tier, cfg, tcfg, seed, params, known, t_start):
         confirmed = None
         # a violation must recur from its own tape in a fresh process; a few attempts are allowed because
         # changed code can itself introduce choices the simulator does not own (e.g. a select with two ready cases)
-        for attempt in range(3):
+        for attempt in range(max(3, 12 // max(1, len(prim[:6])))):
             for o in prim[:6]:
                 tape = o.get('tape')
                 if tape is None:
